@@ -22,7 +22,7 @@ from checks._c03_model import ROOTS, family, spell, _occurrences
 
 SEP_BEFORE = [" ", "=", ",", '"', "'", " --opt=", " -f ", ";", "("]
 SEP_AFTER = [" ", ",", '"', "'", ";", ")"]
-FILES = ["out.txt", "sub/f.dat", "f_1.csv", "a.b/c-d.x"]
+FILES = ["out.txt", "sub/f.dat", "f_1.csv", "p.q/c-d.x"]     # no path component equals a possible producer name
 
 
 def gen_exp(rng, mode: str, n_cases: int = 3) -> Dict[str, Any]:
